@@ -4,7 +4,7 @@
    oracle: on every listed domain assignment the energy of the implementation's own
    result equals ordinary arithmetic on the energies of the operands (`denote`). *)
 From Coq Require Import List ZArith QArith Qcanon Bool Arith.
-From Dimod Require Import Base.Util Model.Poly Model.Sym Model.SymStore Model.OpsLang Gen.Gen_Ops Model.Ops.
+From Dimod Require Import Base.Util Model.Poly Model.Sym Model.SymStore Model.OpsLang Gen.Gen_Ops Gen.Gen_AddVar Model.Ops.
 Import ListNotations.
 
 Inductive ores := ONum (q : Qc) | OMdl (c : cls) (t : tab) (o : obs) | OView (t : tab) (o : obs) | OErr (e : err).
@@ -98,3 +98,29 @@ Definition check_cmp_oracle (c : ccase) : bool :=
   end.
 
 Definition check_cmp (c : ccase) : bool := check_cmp_corr c && check_cmp_oracle c.
+
+
+(* ---------- qm.add_variable(vartype, label, lower_bound=.., upper_bound=..) on an existing label ----------
+   (the entry point through which QuadraticModel.__mul__ merges the variables of its operands)
+   correspondence: the outcome (accepted / TypeError / ValueError) is that of the branch as read from the
+   source; oracle: it is accepted exactly when the re-declaration is compatible (redecl_ok_b). *)
+Record avcall := mkAvCall { av_l : label; av_vt : vartype; av_lb : option Qc; av_ub : option Qc; av_obs : option err }.
+Record avcase := mkAvCase { av_tab : tab; av_calls : list avcall }.
+
+Definition opt_err_eqb (a b : option err) : bool :=
+  match a, b with
+  | None, None => true
+  | Some x, Some y => err_eqb x y
+  | _, _ => false
+  end.
+
+Definition is_none {A} (o : option A) : bool := match o with None => true | Some _ => false end.
+
+Definition check_av (c : avcase) : bool :=
+  forallb (fun k =>
+    match lookup (av_tab c) (av_l k) with
+    | Some have =>
+        opt_err_eqb (gen_addvar_existing have (av_vt k) (av_lb k) (av_ub k)) (av_obs k)
+        && Bool.eqb (redecl_ok_b have (av_vt k) (av_lb k) (av_ub k)) (is_none (av_obs k))
+    | None => false
+    end) (av_calls c).
